@@ -56,6 +56,18 @@ def c11 (m : MsSt) (ln : Nat) (t : List String) : Option (MsSt × List String) :
       | some b => if b == sNew then "snew " ++ iTok b.length else if b == sOld then "sold " ++ iTok b.length
                   else if b.isPrefixOf sNew then "spartial " ++ iTok b.length else "sother " ++ iTok b.length
     some (m, [out ln "f" (cls d.f), out ln "old" (cls d.old)])
+  | "fs.pcrash" :: oldlen :: k :: j :: ws =>
+    -- the publish protocol (temporary file + rename): previous state = `oldlen` bytes of 1, new = chunks of 2
+    let sOld : List UInt8 := List.replicate (nOfTok oldlen) 1
+    let chunks : List (List UInt8) := ws.map fun w => List.replicate (nOfTok w) 2
+    let sNew := chunks.flatten
+    let d := FS.pcrashAt { pub := some sOld, tmp := none } (FS.publishOps chunks) (nOfTok k) (nOfTok j)
+    let cls (x : Option (List UInt8)) : String :=
+      match x with
+      | none => "sabsent i0"
+      | some b => if b == sNew then "snew " ++ iTok b.length else if b == sOld then "sold " ++ iTok b.length
+                  else if b.isPrefixOf sNew then "spartial " ++ iTok b.length else "sother " ++ iTok b.length
+    some (m, [out ln "pub" (cls d.pub), out ln "tmp" (cls d.tmp)])
   | _ => none
 
 end Drv
